@@ -67,7 +67,7 @@ use vstd::prelude::*;
 pub type Result<T> = core::result::Result<T, Error>;
 
 impl ReaderState {
-//@extract state::ReaderState::emit_text | src/reader/state.rs :: impl ReaderState :: fn emit_text | serves=C01,C03,C16
+//@extract state::ReaderState::emit_text | src/reader/state.rs :: impl ReaderState :: fn emit_text | serves=C01,C03,C08,C16
 //@rewrite bytes.iter().rposition(|&b| ==> shim::rposition(bytes, |b: u8|
  pub(crate) fn emit_text<'b>(&mut self, bytes: &'b [u8]) -> (r: BytesText<'b>)
         ensures
@@ -90,7 +90,7 @@ impl ReaderState {
     }
 //@end
 
-//@extract state::ReaderState::emit_bang | src/reader/state.rs :: impl ReaderState :: fn emit_bang | serves=C01,C03,C16
+//@extract state::ReaderState::emit_bang | src/reader/state.rs :: impl ReaderState :: fn emit_bang | serves=C01,C03,C08,C16
 //@rewrite buf[8..].iter().position(|&b| ==> shim::position(&buf[8..], |b: u8|
  #[verifier::loop_isolation(false)]
  pub(crate) fn emit_bang<'b>(&mut self, bang_type: BangType, buf: &'b [u8]) -> (r: Result<Event<'b>>)
@@ -221,7 +221,7 @@ impl ReaderState {
     }
 //@end
 
-//@extract state::ReaderState::emit_end | src/reader/state.rs :: impl ReaderState :: fn emit_end | serves=C01,C03,C04,C16
+//@extract state::ReaderState::emit_end | src/reader/state.rs :: impl ReaderState :: fn emit_end | serves=C01,C03,C04,C08,C16
 //@rewrite content.iter().rposition(|&b| ==> shim::rposition(content, |b: u8|
  pub(crate) fn emit_end<'b>(&mut self, buf: &'b [u8]) -> (r: Result<Event<'b>>)
         requires
@@ -297,7 +297,7 @@ impl ReaderState {
     }
 //@end
 
-//@extract state::ReaderState::emit_question_mark | src/reader/state.rs :: impl ReaderState :: fn emit_question_mark | serves=C01,C03
+//@extract state::ReaderState::emit_question_mark | src/reader/state.rs :: impl ReaderState :: fn emit_question_mark | serves=C01,C03,C08
  pub(crate) fn emit_question_mark<'b>(&mut self, buf: &'b [u8]) -> (r: Result<Event<'b>>)
         requires
             buf@.len() >= 1, buf@[0] == 0x3f,
@@ -333,7 +333,7 @@ impl ReaderState {
     }
 //@end
 
-//@extract state::ReaderState::emit_start | src/reader/state.rs :: impl ReaderState :: fn emit_start | serves=C01,C03,C04,C16
+//@extract state::ReaderState::emit_start | src/reader/state.rs :: impl ReaderState :: fn emit_start | serves=C01,C03,C04,C08,C16
  pub(crate) fn emit_start<'b>(&mut self, content: &'b [u8]) -> (r: Event<'b>)
         requires old(self).wf()
         ensures
